@@ -504,6 +504,56 @@ func init() {
 		}
 		close(ch)
 		wg.Wait()
+		// client-side reconnects and mixed token lifetimes (sys_c16_client.go)
+		type job struct {
+			name string
+			fn   func() (string, string)
+			rep  map[string]any
+		}
+		var jobs []job
+		for _, c := range c16ReconnectCases() {
+			c := c
+			jobs = append(jobs, job{fmt.Sprintf("reconnect/%+v", c), func() (string, string) { return runC16Reconnect(c) }, map[string]any{"engine": "E4-C16", "reconnect": c}})
+		}
+		for _, c := range c16MixedCases(run.Thorough()) {
+			c := c
+			jobs = append(jobs, job{fmt.Sprintf("mixed/%+v", c), func() (string, string) { return runC16Mixed(c) }, map[string]any{"engine": "E4-C16", "mixed": c}})
+		}
+		jch := make(chan job, len(jobs))
+		for _, j := range jobs {
+			jch <- j
+		}
+		close(jch)
+		for k := 0; k < 12; k++ {
+			wg.Add(1)
+			go func() {
+				defer wg.Done()
+				for j := range jch {
+					sig, msg := j.fn()
+					if sig != "" {
+						confirmed := 0
+						for r := 0; r < 2; r++ {
+							if s2, _ := j.fn(); s2 == sig {
+								confirmed++
+							}
+						}
+						if confirmed == 0 {
+							sig = ""
+						}
+					}
+					mu.Lock()
+					evals++
+					distinct[j.name] = true
+					mu.Unlock()
+					if sig != "" {
+						run.Violation("C16", sig, msg, j.rep)
+					}
+				}
+			}()
+		}
+		wg.Wait()
+		run.Set("reconnect_cases", len(c16ReconnectCases()))
+		run.Set("mixed_token_cases", len(c16MixedCases(run.Thorough())))
 		if sig, msg := runC16NoDisconnect(); sig != "" {
 			run.Violation("C16", sig, msg, map[string]any{"engine": "E4-C16", "case": "disable-disconnect-on-expiry"})
 		}
@@ -514,7 +564,7 @@ func init() {
 		ends = append(ends, c16Endings...)
 		sort.Strings(ends)
 		run.Set("endings", ends)
-		run.Set("rule", "one real server per sequence; k upstream connections on shared/distinct endpoints, every assignment of an ending (client close, go-away then close, go-away + proxied request (ErrGone removal) then close, abrupt TCP close, server-side shed, token expiry) in every order, with and without a proxied request in flight, a third ending with server shutdown; after every ending registry == routing table == published gossip entries == still-connected set and open-session count matches; non-trivial = distinct (endpoints, endings, order)")
+		run.Set("rule", "one real server per sequence; k upstream connections on shared/distinct endpoints, every assignment of an ending (client close, go-away then close, go-away + proxied request (ErrGone removal) then close, abrupt TCP close, server-side shed, token expiry) in every order, with and without a proxied request in flight, a third ending with server shutdown; after every ending registry == routing table == published gossip entries == still-connected set and open-session count matches; plus real client listeners behind a gate: {1,2} listeners x {Shutdown, Close} x {while connected, while reconnecting during an outage, after a reconnect}; plus every connect order of 2-3 upstreams with tokens {expiring in 3s, no exp claim, far expiry}: exactly the expired ones are closed; non-trivial = distinct (endpoints, endings, order)")
 		run.Set("exhaustive", run.Thorough())
 		run.Assume("schedules inside net/http, yamux and gorilla/websocket are free-running; liveness waits poll for up to 15s and a failure is re-run twice before it is reported")
 		fmt.Printf("  C16: sequences=%d distinct=%d\n", evals, len(distinct))
@@ -523,11 +573,21 @@ func init() {
 	replayers["E4-C16"] = func(path string) int {
 		var doc struct {
 			Replay struct {
-				Sequence *c16Seq `json:"sequence"`
+				Sequence  *c16Seq       `json:"sequence"`
+				Reconnect *c16Reconnect `json:"reconnect"`
+				Mixed     *c16Mixed     `json:"mixed"`
 			} `json:"replay"`
 		}
 		readJSON(path, &doc)
 		e4.Keys()
+		if doc.Replay.Reconnect != nil {
+			fmt.Println(runC16Reconnect(*doc.Replay.Reconnect))
+			return 0
+		}
+		if doc.Replay.Mixed != nil {
+			fmt.Println(runC16Mixed(*doc.Replay.Mixed))
+			return 0
+		}
 		if doc.Replay.Sequence == nil {
 			fmt.Println(runC16NoDisconnect())
 			return 0
